@@ -49,12 +49,12 @@ func Decode{{ .Method.VarName }}Request(ctx context.Context, v any, md metadata.
 					err = goa.MergeErrors(err, goa.MissingFieldError({{ printf "%q" .Name }}, "metadata"))
 				} else {
 					{{ .VarName }}Raw := vals[0]
-					{{ template "type_conversion" . }}
+					{{ template "type_conversion" (unaliased .) }}
 				}
 			{{- else }}
 				if vals := md.Get({{ printf "%q" .Name }}); len(vals) > 0 {
 					{{ .VarName }}Raw := vals[0]
-					{{ template "type_conversion" . }}
+					{{ template "type_conversion" (unaliased .) }}
 				}
 			{{- end }}
 		{{- end }}
